@@ -279,6 +279,27 @@ Section World.
     end.
 End World.
 
+(* ------------------------------------------------------------------ *)
+(* the SAME objects handed to several constructions                    *)
+(* ------------------------------------------------------------------ *)
+(* A program may keep the description (a dict, a str, a rewound stream) and the Netlist object and hand
+   them to Die(...) again: first alone, later with the netlist, in any order.  The constructor only
+   READS its arguments (parse_yaml_die: `for key in tree`, `tree[KW_WIDTH]`; Netlist.fixed_rectangles()),
+   so the objects a later construction receives are the objects as the user made them: [after_call] is
+   the identity.  [session f o steps] is what the constructions of a process see and return, f being the
+   constructor applied to (description, fixed rectangles); a step is [true] for Die(d, netlist) and
+   [false] for Die(d). *)
+Record call_objects := mkObjs { o_desc : die_input; o_fixed : list Rect }.
+Definition after_call (o : call_objects) (with_netlist : bool) : call_objects := o.
+Definition call_fixed (o : call_objects) (with_netlist : bool) : list Rect :=
+  if with_netlist then o_fixed o else [].
+Fixpoint session {A} (f : die_input -> list Rect -> A) (o : call_objects) (steps : list bool) : list A :=
+  match steps with
+  | [] => []
+  | b :: rest => f (o_desc o) (call_fixed o b) :: session f (after_call o b) rest
+  end.
+Definition objects_after (o : call_objects) (steps : list bool) : call_objects := fold_left after_call steps o.
+
 (* finite worlds for the correspondence: association lists *)
 Fixpoint assoc {A} (k : string) (l : list (string * A)) : option A :=
   match l with
